@@ -98,6 +98,15 @@ theorem split_orientation : type_of% @PG.split_orientation_counterexample := @PG
 /-- a grid point closer than 1e-10 to a boundary is skipped (documented limitation) -/
 theorem grid_point_skipped : List.map (fun e ↦ (e.start, e.stop)) (epochsUpTo { } [Event.discrete [(1 / 10 - 1 / 100000000000, [(Key.size 0, 2)])], Event.discretised [([1, 1], 0, some 1, Key.size 1, 1 / 10)]] 3) = [(0, some (1 / 10 - 1 / 100000000000)), (1 / 10 - 1 / 100000000000, some (1 / 5)), (1 / 5, some (3 / 10))] := @PG.grid_point_skipped
 
+/-! ## hand-written part: glue, non-vacuity examples, counterexamples -/
+/-- non-vacuity: a schedule with a discrete event and a discretised window tiles [0, ∞) in 6 epochs -/
+theorem example_schedule :
+    ((epochsUpTo {} [Event.discrete [(0, [(Key.size 0, 2)]), (1/2, [(Key.size 0, 5)])],
+                     Event.discretised [([1, 1], 0, some 1, Key.size 1, 1/4)]] 20).map
+      fun e => (e.start, e.stop)) =
+      [(0, some (1/4)), (1/4, some (1/2)), (1/2, some (3/4)), (3/4, some 1), (1, some (5/4)), (5/4, none)] := by
+  decide +kernel
+
 end PG.C05
 
 #print axioms PG.C05.mixed_value_in_force
@@ -122,3 +131,4 @@ end PG.C05
 #print axioms PG.C05.historic_window_end
 #print axioms PG.C05.split_orientation
 #print axioms PG.C05.grid_point_skipped
+#print axioms PG.C05.example_schedule
